@@ -122,6 +122,10 @@ PROPS["C06"] = {
     "lean_module": "RaftVerif.Props.C06",
     "theorems": [
         T("MP.vote_once_per_term", "all grants of a term name one candidate: every request sequence, every failure plan, every crash point between the three stable writes"),
+        T("SV.run_one_vote_per_term", "the stepped model of the real handlers, started by NewRaft on ANY durable image: along every sequence of RequestVote / RequestPreVote / AppendEntries / InstallSnapshot / TimeoutNow messages, role changes, restarts and restarts with a damaged snapshot, with a write failure or a crash at any write ordinal of any handler, two granted answers of one term name one candidate"),
+        T("SV.run_term_monotone", "along every such run the durable term never decreases and a running server's in-memory term always equals its durable term"),
+        T("SV.grant_step", "a reported grant is on disk and binding when it is reported, and agrees with every grant that was binding before"),
+        T("SV.step_inv", "one event of any kind keeps every earlier grant binding: the durable term rose above it, or it is that term and the vote record still names the candidate - for every prefix of every handler's writes"),
         T("SV.vote_grant_sound", "the stepped model's RequestVote, every failure and crash ordinal: a granted answer implies term >= own, candidate at least as up to date as the last entry, sender a voter of the known configuration, no other known leader (unless transfer), all planned writes performed and the durable vote record = (this term, this candidate)"),
         T("SV.votePlan_steps_refuse", "a failed vote write always answers not granted"),
         T("SV.exec_prefix", "whatever write fails or wherever the process dies, the durable effect of a handler is a prefix of its write plan"),
